@@ -1350,17 +1350,21 @@ func c09StructMut(st *c09Step) func(*etree.Element) {
 	case st.Op == "many-declarations-many-children":
 		// n unused namespace declarations on the Response and n empty children called like the things the SP looks for
 		return func(el *etree.Element) {
+			unused := "urn:example:unused"
+			if st.Variant >= 3 {
+				unused = "u" // the declaring-children variants keep the message small for its number of declarations
+			}
 			for i := 0; i < st.N; i++ {
-				el.CreateAttr(fmt.Sprintf("xmlns:a%d", i), "urn:example:unused")
+				el.CreateAttr(fmt.Sprintf("xmlns:a%d", i), unused)
 			}
 			name := []string{"Signature", "Assertion", "EncryptedAssertion"}[st.Variant%3]
 			for i := 0; i < st.N; i++ {
 				c := el.CreateElement(name)
 				switch (st.Variant / 3) % 3 {
 				case 1: // each child declares a default namespace of its own
-					c.CreateAttr("xmlns", "urn:example:elsewhere")
+					c.CreateAttr("xmlns", "v")
 				case 2: // each child declares a prefix of its own
-					c.CreateAttr("xmlns:z", "urn:example:elsewhere")
+					c.CreateAttr("xmlns:z", "v")
 				}
 			}
 		}
@@ -2315,7 +2319,20 @@ func c09ExecResponse(c *c09Ctx, st *c09Step, k c09Knobs) {
 		body := c09XMLLayer(elBytes(c09BuildResponse(o, t0)), st)
 		cpu0 := c09CPUSeconds()
 		pan = c09Guard(func() { as, err = spv.ParseXMLResponse(body, ids, spv.AcsURL) })
-		if spent, allowed := c09CPUSeconds()-cpu0, 2+4*float64(len(body))/(1<<20); (st.Op == "deep-nesting" || st.Op == "many-declarations-many-children") && pan == nil {
+		spent, allowed := c09CPUSeconds()-cpu0, 3+12*float64(len(body))/(1<<20)
+		if (st.Op == "deep-nesting" || st.Op == "many-declarations-many-children") && pan == nil {
+			// a machine busy with other work inflates processor time in bursts (shared caches, stolen cycles): what exceeds the bound
+			// is measured again, up to twice, and the least of the measurements counts (the call is a function of its input)
+			for again := 0; again < 2 && spent > allowed; again++ {
+				c.res.probe("cpu-time-measured-again")
+				cpu1 := c09CPUSeconds()
+				_ = c09Guard(func() { _, _ = spv.ParseXMLResponse(body, ids, spv.AcsURL) })
+				if s2 := c09CPUSeconds() - cpu1; s2 < spent {
+					spent = s2
+				}
+			}
+		}
+		if (st.Op == "deep-nesting" || st.Op == "many-declarations-many-children") && pan == nil {
 			// processor time of the consuming call (not the bubble's clock, which does not move while code runs): it has to stay
 			// within a generous linear bound of the input size - what takes 0.1 s at 70 KB and 18 s at 280 KB takes hours at the
 			// size of a POST body
@@ -2332,7 +2349,7 @@ func c09ExecResponse(c *c09Ctx, st *c09Step, k c09Knobs) {
 			}
 			if spent > allowed {
 				c.res.logf("step %d %s: %d KB of input took more than the linear bound of processor time", c.si, st.Entry, len(body)>>10)
-				c.res.violate(c.si, "hang", "C09/blow-up/cpu/"+c09Func(st.Entry)+"/"+shape, fmt.Sprintf("processor time within 2 s + 4 s/MB of input (%.1f s for %d KB)", allowed, len(body)>>10), "more than that", fmt.Sprintf("n=%d", st.N))
+				c.res.violate(c.si, "hang", "C09/blow-up/cpu/"+c09Func(st.Entry)+"/"+shape, fmt.Sprintf("processor time within 3 s + 12 s/MB of input (%.1f s for %d KB)", allowed, len(body)>>10), "more than that", fmt.Sprintf("n=%d", st.N))
 				return
 			}
 		}
@@ -2889,7 +2906,7 @@ func genTotality(g *Rng, tier string) *Plan {
 			case "deep-nesting":
 				st.N = Pick(g, 10_000, 10_000, 9_999, 10_001, 1_000, 20_000, 40_000, 40_000)
 			case "many-declarations-many-children":
-				st.N = Pick(g, 500, 2000, 4000, 10000, 10000)
+				st.N = Pick(g, 500, 2000, 4000, 14000, 14000)
 				st.Variant = g.Intn(9)
 				if st.Family == "response" && g.Bool(0.6) {
 					st.Entry = "ParseXMLResponse" // the entry point whose processor time is measured
